@@ -20,11 +20,17 @@ const FUNCS: &[&str] = &[
     "fact", "fib", "addk", "sqrt", "abs", "to_string", "typeof", "len", "max", "sum", "(x => x > 2)", "((x, i) => i % 2 == 0)", "even",
     "(x => if x > 2 then true else 1)", "(x => x.a)", "(x => undefined_name)", "5", "null", "(x => (y => x + y))", "(x => [x] via (y => y + 1))",
     "(x => deep(x))", "range", "(x => x + \"s\")", "((x, i) => fact(i))",
+    // predicates that do not return a boolean for some element (always run, see ALWAYS)
+    "(x => if x > 1 then true else null)", "(x => null)", "(x => x.active)", "(x => if x == 2 then 0 else true)", "(x => \"yes\")",
+    // flexible-arity built-ins as callbacks (the index is passed to whatever accepts two arguments)
+    "round", "min", "max", "((a, b?) => b)",
 ];
+/// the functions from this index on are tried against every list in every tier
+const ALWAYS: usize = 31;
 
 const LISTS: &[&str] = &[
     "[]", "[1]", "[1, 2, 3]", "[3, 1, 2, 5, 4]", "[0, 1, 2, 3, 4, 5, 6, 7, 8, 9]", "[\"a\", \"b\"]", "[1, \"a\", null]", "[[1, 2], [3]]", "[{a: 1}, {a: 2}]",
-    "range(4)", "[true, false]", "[-1, 2.5]", "5", "\"abc\"", "null",
+    "range(4)", "[true, false]", "[-1, 2.5]", "5", "\"abc\"", "null", "[{active: true}, {b: 1}, {active: false}]", "[1.26, 2.5, 3.14159]",
 ];
 
 pub fn run(ctx: &Ctx, rep: &mut Report) {
@@ -33,7 +39,7 @@ pub fn run(ctx: &Ctx, rep: &mut Report) {
     let all = ctx.thorough();
     for (fi, f) in FUNCS.iter().enumerate() {
         for (li, l) in LISTS.iter().enumerate() {
-            if !all && (fi * 5 + li * 3 + ctx.seed as usize) % 3 != 0 {
+            if !all && fi < ALWAYS && (fi * 5 + li * 3 + ctx.seed as usize) % 3 != 0 {
                 continue;
             }
             let pairs: Vec<(String, String)> = vec![
